@@ -11,7 +11,10 @@
 pub mod c12_gen;
 #[path = "c12_model.rs"]
 pub mod c12_model;
+#[path = "c12_cff2.rs"]
+pub mod c12_cff2;
 
+use self::c12_cff2 as cff2;
 use self::c12_gen::*;
 use self::c12_model as model;
 use super::Prop;
@@ -28,6 +31,8 @@ struct RealFont {
     bytes: Vec<u8>,
     vf: Option<VFont>,
     cff2: bool,
+    /// CFF2 fixture whose CharStrings use no subroutines: lifted into the AST as well
+    cff: Option<cff2::Cff2>,
 }
 
 pub struct C12 {
@@ -48,15 +53,55 @@ impl C12 {
                 continue;
             }
             let cff2 = f.gets("CFF2").is_some();
-            let vf = if f.gets("gvar").is_some() && f.gets("glyf").is_some() { model::read_vfont(&sf.data) } else { None };
+            let mut vf = if f.gets("gvar").is_some() && f.gets("glyf").is_some() { model::read_vfont(&sf.data) } else { None };
             if vf.is_none() && !cff2 {
                 continue;
             }
-            real.push(RealFont { name: sf.name.clone(), bytes: sf.data.clone(), vf, cff2 });
+            let mut cff = None;
+            if cff2 {
+                if let Some((v, c)) = lift_cff2(&f) {
+                    vf = Some(v);
+                    cff = Some(c);
+                }
+            }
+            real.push(RealFont { name: sf.name.clone(), bytes: sf.data.clone(), vf, cff2, cff });
         }
         real.sort_by(|a, b| a.name.cmp(&b.name));
         C12 { real }
     }
+}
+
+/// Lift a real CFF2 variable font into the AST (only when its CharStrings are free of subroutine calls).
+fn lift_cff2(f: &sfnt::Font) -> Option<(VFont, cff2::Cff2)> {
+    let r = cff2::read_cff2(f.gets("CFF2")?)?;
+    if r.fd_count != 1 || !r.has_vstore {
+        return None;
+    }
+    let mut c = cff2::Cff2 { regions: r.regions.clone(), data_regions: r.data_regions.clone(), private_vsindex: r.private_vsindex, glyphs: Vec::new() };
+    for cs in &r.charstrings {
+        let g = cff2::read_charstring_subrs(cs, r.private_vsindex.unwrap_or(0), &|v| r.data_regions.get(v as usize).map(|x| x.len()), &r.subrs)?;
+        c.glyphs.push(g);
+    }
+    let n = c.glyphs.len();
+    let mut vf = VFont::default();
+    vf.axes = model::read_fvar(f.gets("fvar")?)?;
+    vf.avar = match f.gets("avar") {
+        Some(d) => Some(model::read_avar(d)?),
+        None => None,
+    };
+    vf.glyphs = vec![Glyph::Empty; n];
+    vf.gvar = vec![None; n];
+    vf.metrics = model::read_metrics(f, n)?;
+    vf.hvar = match f.gets("HVAR") {
+        Some(d) => Some(model::read_hvar(d)?),
+        None => None,
+    };
+    vf.mvar = match f.gets("MVAR") {
+        Some(d) => Some(model::read_mvar(d)?),
+        None => None,
+    };
+    vf.base = model::read_base_metrics(f);
+    Some((vf, c))
 }
 
 /// What the judge needs besides the AST.
@@ -67,6 +112,8 @@ struct Subject<'a> {
     /// [glyph][tuple] encoding classes of the generated gvar (empty for real fonts)
     enc: Option<&'a Vec<Vec<Vec<&'static str>>>>,
     generated: bool,
+    /// CFF2 flavour: the abstract CharStrings (the glyphs of `vf` are all Empty then)
+    cff: Option<&'a cff2::Cff2>,
 }
 
 fn r14(v: i16) -> f64 {
@@ -236,7 +283,7 @@ fn judge(cx: &mut Ctx, sub: &Subject<'_>, user: &[i32], out: &[u8], tuple: &[i16
     }
     // ---- read the output back (independent readers)
     let n = vf.glyphs.len();
-    let og = match model::read_glyphs(&of) {
+    let og = match if sub.cff.is_some() { Some(vec![Glyph::Empty; n]) } else { model::read_glyphs(&of) } {
         Some(g) if g.len() == n => g,
         other => {
             cx.violation("output", "glyf-unreadable", witness(sub, user, tuple, format!("output glyf/loca unreadable or glyph count changed ({:?} glyphs, expected {})", other.map(|g| g.len()), n), vec![]));
@@ -387,7 +434,7 @@ fn judge(cx: &mut Ctx, sub: &Subject<'_>, user: &[i32], out: &[u8], tuple: &[i16
             },
             None => (phantom_adv, "phantom", tol_derived()),
         };
-        if sub.generated && vf.hvar.is_some() && (exp_adv - phantom_adv).abs() > 1e-6 {
+        if sub.generated && sub.cff.is_none() && vf.hvar.is_some() && (exp_adv - phantom_adv).abs() > 1e-6 {
             cx.inconclusive("generator:hvar-gvar-inconsistent");
             return false;
         }
@@ -441,7 +488,7 @@ fn judge(cx: &mut Ctx, sub: &Subject<'_>, user: &[i32], out: &[u8], tuple: &[i16
         match hv_lsb {
             Some(d) => {
                 let e = lsb0 as f64 + d;
-                if sub.generated && !unsupported && (e - phantom_lsb).abs() > 1e-6 {
+                if sub.generated && sub.cff.is_none() && !unsupported && (e - phantom_lsb).abs() > 1e-6 {
                     cx.inconclusive("generator:hvar-lsb-inconsistent");
                     return false;
                 }
@@ -560,6 +607,10 @@ fn judge(cx: &mut Ctx, sub: &Subject<'_>, user: &[i32], out: &[u8], tuple: &[i16
             cx.class("info:advanceWidthMax-differs-from-hmtx-maximum");
         }
     }
+    // ---- CFF2 CharStrings
+    if let Some(c) = sub.cff {
+        nontrivial |= judge_cff2(cx, sub, c, &of, coords, user, tuple);
+    }
     // ---- MVAR-controlled metrics
     for &(tag, table, off, signed, minv) in MVAR_TARGETS {
         let base = match vf.base.get(tag) {
@@ -641,6 +692,87 @@ fn judge(cx: &mut Ctx, sub: &Subject<'_>, user: &[i32], out: &[u8], tuple: &[i16
     }
     if user.iter().zip(vf.axes.iter()).all(|(u, a)| *u == a.def) {
         cx.class("coords:default-tuple");
+    }
+    nontrivial
+}
+
+fn judge_cff2(cx: &mut Ctx, sub: &Subject<'_>, c: &cff2::Cff2, of: &sfnt::Font, coords: &[i16], user: &[i32], tuple: &[i16]) -> bool {
+    let table = match of.gets("CFF2") {
+        Some(t) => t,
+        None => {
+            cx.violation("output", "cff2-table-missing", witness(sub, user, tuple, "instance of a CFF2 font has no CFF2 table".into(), vec![]));
+            return false;
+        }
+    };
+    let out = match cff2::read_cff2(table) {
+        Some(o) => o,
+        None => {
+            cx.violation("output", "cff2-unreadable", witness(sub, user, tuple, "CFF2 table of the instance is unreadable".into(), vec![("cff2", J::hex(&table[..table.len().min(600)]))]));
+            return false;
+        }
+    };
+    if out.has_vstore {
+        cx.violation("static", "cff2-vstore-left", witness(sub, user, tuple, "CFF2 table of the instance still has a VariationStore".into(), vec![]));
+    }
+    if out.charstrings.len() != c.glyphs.len() {
+        cx.violation("output", "cff2-glyph-count", witness(sub, user, tuple, format!("{} CharStrings, expected {}", out.charstrings.len(), c.glyphs.len()), vec![]));
+        return false;
+    }
+    let mut nontrivial = false;
+    for (gid, g) in c.glyphs.iter().enumerate() {
+        let gw = |what: String, extra: Vec<(&str, J)>| -> J {
+            let mut e = vec![("glyph_id", J::U(gid as u64)), ("charstring_ast", J::s(format!("{:?}", g).chars().take(3000).collect::<String>())), ("regions", J::s(format!("{:?} data {:?} private vsindex {:?}", c.regions, c.data_regions, c.private_vsindex))), ("output_charstring", J::hex(&out.charstrings[gid]))];
+            e.extend(extra);
+            witness(sub, user, tuple, what, e)
+        };
+        // the output must be free of blend / vsindex / subroutine calls: k_of refuses every blend
+        let og = match cff2::read_charstring(&out.charstrings[gid], 0, &|_| None) {
+            Some(o) if o.vsindex.is_none() => o,
+            _ => {
+                cx.violation("static", "cff2-charstring-not-static", gw("output CharString is unreadable or still contains vsindex/blend/subroutine operators".into(), vec![]));
+                continue;
+            }
+        };
+        let exp = match cff2::expected_ops(c, g, coords) {
+            Some(e) => e,
+            None => {
+                cx.class("not-judged:cff2-vsindex-outside-store");
+                continue;
+            }
+        };
+        if exp.len() != og.ops.len() || exp.iter().zip(og.ops.iter()).any(|(e, o)| e.0 != o.op || e.1.len() != o.args.len() || e.2 != o.mask) {
+            cx.violation("outline-structure", "cff2-operators-changed", gw("operators, operand counts or hint masks of the CharString changed".into(), vec![("observed", J::s(format!("{:?}", og).chars().take(2000).collect::<String>()))]));
+            continue;
+        }
+        let mut worst = 0.0f64;
+        'ops: for (k, (e, o)) in exp.iter().zip(og.ops.iter()).enumerate() {
+            for (j, (ev, ov)) in e.1.iter().zip(o.args.iter()).enumerate() {
+                let obs = ov.def as f64 / 65536.0;
+                let err = (obs - ev).abs();
+                worst = worst.max(err);
+                if !e.3 {
+                    // no region contributes to this operator: the default values must come out
+                    if err > 0.0 {
+                        let sig = if err <= 1.0 / 32768.0 { "cff2-operand-changed-without-delta:last-16.16-bit" } else { "cff2-operand-changed-without-delta" };
+                        cx.violation("default-identity", sig, gw(format!("operator {} (#{}) operand {}: default {} (16.16 raw {}) observed {} (raw {})", e.0, k, j, ev, (ev * 65536.0) as i64, obs, ov.def), vec![]));
+                        break 'ops;
+                    }
+                } else if err > tol_scalar() {
+                    cx.violation("cff2-blend", "cff2-blended-operand", gw(format!("operator {} (#{}) operand {}: expected {:.5} observed {:.5}", e.0, k, j, ev, obs), vec![]));
+                    break 'ops;
+                }
+            }
+            if e.3 {
+                cx.class("cff2:blend-applied");
+                nontrivial = true;
+            }
+        }
+        if worst > 0.01 && worst <= tol_scalar() {
+            cx.class("info:cff2-operand-error-above-0.01");
+        }
+        if g.vsindex.is_some() {
+            cx.class("cff2:glyph-vsindex");
+        }
     }
     nontrivial
 }
@@ -776,7 +908,7 @@ impl C12 {
         if cx.verbose && std::env::var("C12_DUMP").is_ok() {
             eprintln!("AST {:#?}", vf);
         }
-        let sub = Subject { vf: &vf, bytes: &built.bytes, label: "generated", enc: Some(&built.gvar_classes), generated: true };
+        let sub = Subject { vf: &vf, bytes: &built.bytes, label: "generated", enc: Some(&built.gvar_classes), generated: true, cff: None };
         let count = if cx.quick() { 6 } else { 10 };
         let nt = self.run_instances(cx, rng, &sub, count);
         if vf.has_invalid_region {
@@ -800,25 +932,108 @@ impl C12 {
         }
     }
 
+    fn case_generated_cff2(&mut self, cx: &mut Ctx, rng: &mut Rng) {
+        let mut vf = VFont::default();
+        vf.axes = gen_axes(rng);
+        let na = vf.axes.len();
+        if rng.chance(1, 3) {
+            vf.avar = Some((0..na).map(|_| gen_segmap(rng)).collect());
+        }
+        let n = 1 + rng.below(6);
+        vf.glyphs = vec![Glyph::Empty; n];
+        vf.gvar = vec![None; n];
+        vf.metrics = (0..n).map(|_| (rng.below(2000) as u16, rng.range(-100, 300) as i16)).collect();
+        vf.num_h_metrics = if rng.chance(1, 3) { 1 + rng.below(n) } else { n };
+        for g in vf.num_h_metrics..n {
+            vf.metrics[g].0 = vf.metrics[vf.num_h_metrics - 1].0;
+        }
+        vf.os2_version = *rng.pick(&[0u16, 2, 4, 5]);
+        vf.with_vhea = rng.chance(1, 5);
+        for &(tag, table, _off, signed, minv) in MVAR_TARGETS {
+            let exists = match table {
+                "OS/2" => vf.os2_version >= minv,
+                "vhea" => vf.with_vhea,
+                _ => true,
+            };
+            if exists {
+                vf.base.insert(tag.to_string(), if signed { rng.range(-1500, 1500) as i32 } else { rng.range(0, 3000) as i32 });
+            }
+        }
+        if rng.chance(1, 2) {
+            vf.hvar = Some(cff2::gen_free_hvar(rng, na, n));
+        }
+        if rng.chance(1, 3) {
+            let m = gen_mvar(rng, &vf);
+            vf.mvar = Some(m);
+        }
+        let c = cff2::gen_cff2(rng, na, n);
+        let mut cls = Vec::new();
+        let table = cff2::write_cff2(&c, na, rng, &mut cls);
+        let built = build_font_with(&vf, rng, Some(table));
+        // generator self-check
+        let ok = (|| -> Option<bool> {
+            let f = sfnt::Font::parse(&built.bytes)?;
+            let r = cff2::read_cff2(f.gets("CFF2")?)?;
+            if r.regions != c.regions || r.data_regions != c.data_regions || r.private_vsindex != c.private_vsindex || r.charstrings.len() != n || !r.has_vstore || r.fd_count != 1 {
+                return Some(false);
+            }
+            for (g, cs) in c.glyphs.iter().zip(r.charstrings.iter()) {
+                let back = cff2::read_charstring(cs, c.private_vsindex.unwrap_or(0), &|v| c.data_regions.get(v as usize).map(|x| x.len()))?;
+                if !cff2::same_glyph(g, &back) {
+                    return Some(false);
+                }
+            }
+            let hv = match f.gets("HVAR") {
+                Some(d) => Some(model::read_hvar(d)?),
+                None => None,
+            };
+            let mv = match f.gets("MVAR") {
+                Some(d) => Some(model::read_mvar(d)?),
+                None => None,
+            };
+            Some(hv == vf.hvar && mv == vf.mvar && model::read_fvar(f.gets("fvar")?)? == vf.axes && model::read_metrics(&f, n)? == vf.metrics && model::read_base_metrics(&f) == vf.base)
+        })();
+        if ok != Some(true) {
+            if cx.verbose {
+                eprintln!("cff2 roundtrip failed: {:?}\n{:?}", ok, c);
+            }
+            cx.inconclusive("generator:roundtrip-cff2");
+            return;
+        }
+        if cx.verbose && std::env::var("C12_DUMP").is_ok() {
+            eprintln!("AST {:#?}\n{:#?}", vf, c);
+        }
+        let sub = Subject { vf: &vf, bytes: &built.bytes, label: "generated-cff2", enc: None, generated: true, cff: Some(&c) };
+        let nt = self.run_instances(cx, rng, &sub, if cx.quick() { 6 } else { 10 });
+        for k in cls {
+            cx.class(k);
+        }
+        cx.class("font:generated-cff2");
+        if nt {
+            cx.nontrivial(hash_bytes(&built.bytes));
+        }
+    }
+
     fn case_real(&mut self, cx: &mut Ctx, rng: &mut Rng) {
         if self.real.is_empty() {
             cx.inconclusive("no-real-variable-fonts");
             return;
         }
         let idx = rng.below(self.real.len());
-        let (name, bytes, vf, cff2) = {
+        let (name, bytes, vf, cff2, cff) = {
             let r = &self.real[idx];
-            (r.name.clone(), r.bytes.clone(), r.vf.clone(), r.cff2)
+            (r.name.clone(), r.bytes.clone(), r.vf.clone(), r.cff2, r.cff.clone())
         };
+        if cff2 {
+            self.case_cff2(cx, rng, &name, &bytes);
+        }
         if let Some(vf) = vf {
-            let sub = Subject { vf: &vf, bytes: &bytes, label: &name, enc: None, generated: false };
+            let sub = Subject { vf: &vf, bytes: &bytes, label: &name, enc: None, generated: false, cff: cff.as_ref() };
             let nt = self.run_instances(cx, rng, &sub, 4);
-            cx.class("real-font:truetype");
+            cx.class(if cff.is_some() { "real-font:cff2-model" } else { "real-font:truetype" });
             if nt {
                 cx.nontrivial(mix(hash_str(&name), rng.u64()));
             }
-        } else if cff2 {
-            self.case_cff2(cx, rng, &name, &bytes);
         }
     }
 
@@ -895,11 +1110,18 @@ impl Prop for C12 {
     fn case(&mut self, cx: &mut Ctx, rng: &mut Rng) {
         let real = match cx.mode.as_str() {
             "real" => true,
-            "gen" => false,
+            "gen" | "cff2" => false,
             _ => rng.chance(1, 12),
+        };
+        let want_cff2 = match cx.mode.as_str() {
+            "cff2" => true,
+            "gen" | "real" => false,
+            _ => rng.chance(1, 5),
         };
         if real {
             self.case_real(cx, rng);
+        } else if want_cff2 {
+            self.case_generated_cff2(cx, rng);
         } else {
             self.case_generated(cx, rng);
         }
